@@ -464,6 +464,12 @@ func (s *sim) planRef(e *endpoint) {
 	if class == 4 {
 		s.r.Probe("reference key encoding shares 4..15 bytes with the v1 prefix")
 	}
+	if c.Bool(300, "ref.version-contents") {
+		// BIP324: the version packet's contents are reserved for future
+		// extensions and must be ignored by the receiver
+		e.verLen = simkit.Range(c, 1, 40, "ref.version-len")
+		s.r.Probe("reference sends a version packet with non-empty contents")
+	}
 	// the first byte of an initiator's key must not look like a v1 magic byte
 	// sequence; with a random key that has probability 2^-128.
 	e.refEarlyKey = c.Bool(500, "ref.early")
@@ -512,8 +518,8 @@ func (s *sim) planLayout(e *endpoint) layout {
 		l.hs = append(l.hs, span{off, off + 20 + n, true})
 		off += 20 + n
 	}
-	l.hs = append(l.hs, span{off, off + 20, false})
-	off += 20
+	l.hs = append(l.hs, span{off, off + 20 + e.verLen, false})
+	off += 20 + e.verLen
 	l.hsEnd = off
 	for _, p := range e.pkts {
 		l.app = append(l.app, span{off, off + 20 + len(p.contents), p.ignore})
@@ -1415,7 +1421,7 @@ func (s *sim) judgeKeysAndCiphertext(dEff [2]int) {
 			aad = nil
 			bounds = append(bounds, len(exp))
 		}
-		exp = append(exp, sess.Send.EncPacket(nil, aad, false)...)
+		exp = append(exp, sess.Send.EncPacket(make([]byte, e.verLen), aad, false)...)
 		bounds = append(bounds, len(exp))
 		for _, sr := range e.sent {
 			if sr.kind != 'a' {
